@@ -11,6 +11,14 @@ verdict.
                      that pass the existing tests); the rest - "live" - are listed for triage by hand: equivalent /
                      outside every property / a hole in a rule.
 
+A second base makes whole statements and calls reachable for the line-based operators: /repo reformatted with very wide
+lines (behaviour-preserving; every rule is silent on it):
+    mkdir -p /tmp/cwmt-sweep-base && cp -r /repo/src /repo/Cargo.toml /repo/Cargo.lock /tmp/cwmt-sweep-base/ &&
+    (cd /tmp/cwmt-sweep-base && find src -name '*.rs' | xargs rustfmt --edition 2021 --config max_width=700,use_small_heuristics=Max,chain_width=700,fn_call_width=700,struct_lit_width=700)
+    SWEEP_BASE=/tmp/cwmt-sweep-base SWEEP_TAG=wide- SWEEP_BATCH3=1 tools/sweep.py gen|static|report
+(SWEEP_BATCH3 adds: a variable replaced by another one in scope in the same function, a call dropped from a method chain,
+the batch-1 operators at every occurrence in the line.)
+
 usage: sweep.py gen                      -> sweep/mutants.jsonl
        sweep.py static [N workers]       -> sweep/static.jsonl
        sweep.py tests [N workers]        -> sweep/tests.jsonl
